@@ -16,6 +16,7 @@ OBJ_OPTS = [
     {},
     {"additional_properties": True},
     {"fall_back_on_default": True},
+    {"aliaser": "prefix"},
     {"aliaser": "camel"},
 ]
 
@@ -42,7 +43,7 @@ def jobs(prop: str, tier: str, seed: int):
         spec, _ = pools.get("data", pid)
         optsets = [{}]
         if has_obj(spec):
-            optsets = OBJ_OPTS if tier == "thorough" else OBJ_OPTS[:3]
+            optsets = OBJ_OPTS if tier == "thorough" else OBJ_OPTS[:4]
         big = n_positions(spec) >= 8
         for o in optsets:
             if tier == "quick":
